@@ -278,6 +278,19 @@ def check_routes(ctx, rng, n_orders, n_cultures):
                     V(ctx, f"standard-letter-parse:{cls.__name__}:{L}", f"{cls.__name__} standard pattern {L!r} in culture {c.name!r} does not read the ISO text {want!r} back", case)
     finally:
         CultureInfo.current_culture = saved
+    # "24:00:00" is accepted as the following midnight; anything later than that within hour 24 is not a time (the stdlib refuses all of it)
+    from pyoda_time.text import InstantPattern, LocalDateTimePattern
+    for base_ in ("2023-05-06T24:00:00", "1999-12-31T24:00:00"):
+        for suffix, ok in (("", True), (".0", True), (".000000000", True), (".5", False), (".000000001", False), (".1000000", False)):
+            for nm_, p_, z_ in (("ldt_extended_iso", LocalDateTimePattern.extended_iso, ""), ("ldt_variable_precision_iso", LocalDateTimePattern.variable_precision_iso, ""), ("inst_extended_iso", InstantPattern.extended_iso, "Z")):
+                txt = base_ + suffix + z_
+                ctx.ev(); ctx.count("hour24_texts")
+                try:
+                    r_ = p_.parse(txt)
+                except Exception as e:  # noqa: BLE001
+                    ctx.exc(e); continue
+                if r_.success and not ok:
+                    V(ctx, f"hour-24-with-fraction-accepted:{nm_}", f"{nm_}.parse({txt!r}) succeeded with {r_.value!r}: hour 24 is only valid as exactly 24:00:00 (the fraction was silently dropped)", {"kind": "route", "text": txt}, repr(r_.value))
     # the shared built-in pattern objects under several threads, and right after a call that raised: still the stdlib's text for that value
     import threading
     P = pats()
